@@ -127,6 +127,10 @@ def w_dop(d):
         return [4, w_dop(d["s"])]
     if k == "endmarker":
         return [5, w_dop(d["s"]), w_dop(d["tdop"]), w_value(d["tval"])]
+    if k == "mux":
+        wc = lambda c: [w_name(c["name"]), c.get("lo", 0), c.get("hi", 0), [] if c["s"] is None else [w_dop(c["s"])]]
+        return [6, d["bp"], d["kb"], d["kbit"], w_dop(d["key"]), [wc(c) for c in d["cases"]],
+                [] if d["dflt"] is None else [wc(d["dflt"])]]
     raise ValueError(k)
 
 
@@ -173,6 +177,7 @@ class Emitter:
     def __init__(self):
         self.n = 0
         self.dops, self.structs, self.statics, self.dynlens, self.eops, self.endmarkers = [], [], [], [], [], []
+        self.muxs = []
 
     def fresh(self, p):
         self.n += 1
@@ -264,6 +269,26 @@ class Emitter:
                                    f'<TERMINATION-VALUE>{x_val(d["tval"])}</TERMINATION-VALUE></DYN-END-DOP-REF>'
                                    f'</DYNAMIC-ENDMARKER-FIELD>')
             return i
+        if k == "mux":
+            ki = self.dop_id(d["key"])
+            i = self.fresh("mx")
+
+            def sref(c):
+                return "" if c["s"] is None else f'<STRUCTURE-REF ID-REF="{self.dop_id(c["s"])}"/>'
+
+            def lim(tag, v, is_open):
+                return f'<{tag} INTERVAL-TYPE="{"OPEN" if is_open else "CLOSED"}">{v}</{tag}>'
+
+            dc = ""
+            if d["dflt"] is not None:
+                dc = f'<DEFAULT-CASE><SHORT-NAME>{d["dflt"]["name"]}</SHORT-NAME>{sref(d["dflt"])}</DEFAULT-CASE>'
+            cs = "".join(f'<CASE><SHORT-NAME>{c["name"]}</SHORT-NAME>{sref(c)}{lim("LOWER-LIMIT", c["lo"], c.get("lo_open"))}'
+                         f'{lim("UPPER-LIMIT", c["hi"], c.get("hi_open"))}</CASE>' for c in d["cases"])
+            self.muxs.append(f'<MUX ID="{i}"><SHORT-NAME>{i}</SHORT-NAME><BYTE-POSITION>{d["bp"]}</BYTE-POSITION>'
+                             f'<SWITCH-KEY><BYTE-POSITION>{d["kb"]}</BYTE-POSITION><BIT-POSITION>{d["kbit"]}</BIT-POSITION>'
+                             f'<DATA-OBJECT-PROP-REF ID-REF="{ki}"/></SWITCH-KEY>{dc}'
+                             + (f'<CASES>{cs}</CASES>' if cs else "") + '</MUX>')
+            return i
         raise ValueError(k)
 
     def x_param(self, p):
@@ -320,7 +345,7 @@ def emit_document(messages):
 
     ddds = ("<DIAG-DATA-DICTIONARY-SPEC>" + sec("DATA-OBJECT-PROPS", em.dops) + sec("STRUCTURES", em.structs) +
             sec("STATIC-FIELDS", em.statics) + sec("DYNAMIC-LENGTH-FIELDS", em.dynlens) +
-            sec("DYNAMIC-ENDMARKER-FIELDS", em.endmarkers) + sec("END-OF-PDU-FIELDS", em.eops) +
+            sec("DYNAMIC-ENDMARKER-FIELDS", em.endmarkers) + sec("END-OF-PDU-FIELDS", em.eops) + sec("MUXS", em.muxs) +
             "</DIAG-DATA-DICTIONARY-SPEC>")
     return ('<?xml version="1.0" encoding="UTF-8"?>'
             '<ODX MODEL-VERSION="2.2.0" xmlns:xsi="http://www.w3.org/2001/XMLSchema-instance">'
@@ -482,8 +507,9 @@ BL_POOL = [1, 2, 3, 4, 5, 7, 8, 8, 8, 9, 12, 15, 16, 16, 17, 24, 31, 32, 32, 33,
 
 class Gen:
 
-    def __init__(self, rng, dynamic=True, fields=True, positions=True, max_depth=3):
+    def __init__(self, rng, dynamic=True, fields=True, positions=True, max_depth=3, muxs=True):
         self.rng = rng
+        self.muxs = muxs
         self.dynamic = dynamic
         self.fields = fields
         self.positions = positions
@@ -640,6 +666,29 @@ class Gen:
             return self.values_for_params(dop["params"], stream, depth + 1)
         if stream == "illtyped" and r.random() < 0.3:
             return r.choice([None, 5, {"a": 1}, "x"])
+        if k == "mux":
+            alts = list(dop["cases"]) + ([dop["dflt"]] if dop["dflt"] is not None else [])
+            x = r.random()
+            if stream == "illtyped" and r.random() < 0.5:
+                spec = r.choice([None, "nocase", 99, b"c1", ["c1"], -1])
+                c = r.choice(alts) if alts else None
+            elif not alts:
+                spec, c = r.choice(["c1", 0, None]), None
+            else:
+                c = r.choice(alts)
+                if x < 0.6 or "lo" not in c:
+                    spec = c["name"]
+                    if x > 0.9:
+                        spec = r.choice([0, 255, None])  # (mostly) the default case, by number
+                else:
+                    spec = r.choice([c["lo"], c["hi"], r.randint(min(c["lo"], c["hi"]), max(c["lo"], c["hi"]))])
+                    if stream == "boundary":
+                        spec = r.choice([c["lo"] - 1, c["hi"] + 1, spec])
+            cv = self.value_for_dop(c["s"], stream, depth + 1) if c is not None and c["s"] is not None else \
+                r.choice([{}, {}, None, {"a": 1}])
+            if stream == "valid" and r.random() < 0.1 and isinstance(spec, str):
+                return {spec: cv}
+            return [spec, cv]
         if k == "static":
             n = dop["n"] if stream != "boundary" or r.random() < 0.6 else max(0, dop["n"] + r.choice([-1, 1]))
             return [self.value_for_dop(dop["s"], stream, depth + 1) for _ in range(n)]
@@ -695,7 +744,37 @@ class Gen:
                 return dict(k="eop", s=s)
             t = simple(std(BUINT, r.choice([8, 8, 8, 16]), None, True))
             return dict(k="endmarker", s=s, tdop=t, tval=r.choice([0, 255, 170]))
+        if self.muxs and depth < self.max_depth and x < 0.37:
+            return self.mux_dop(depth)
         return self.simple_dop(lenkeys, allow_dyn=True)
+
+    def mux_dop(self, depth):
+        """a multiplexer: an unsigned switch key, 0..3 cases over small key ranges (mostly disjoint and ascending,
+        sometimes overlapping, empty or with OPEN limits), with or without content structure, optional default case"""
+        r = self.rng
+        kbl = r.choice([8, 8, 8, 4, 16])
+        key = simple(std(BUINT, kbl, None, r.random() < 0.8))
+        kb = r.choice([0, 0, 0, 1])
+        kbit = r.choice([0, 0, 0, 0, 3])
+        kend = kb + (kbit + kbl + 7) // 8
+        bp = r.choice([kend, kend, kend, kend, kend + 1, 0])
+
+        def content():
+            if r.random() < 0.25:
+                return None
+            return self.structure(depth + 1, allow_dyn=r.random() < 0.3)
+
+        cases = []
+        lo = r.choice([0, 1, 1, 2])
+        for i in range(r.choice([0, 1, 2, 2, 3])):
+            hi = lo + r.choice([0, 0, 1, 3])
+            if r.random() < 0.06:
+                hi = lo - 1  # a case which never applies
+            cases.append(dict(name=f"c{i + 1}", lo=lo, hi=hi, s=content(), lo_open=r.random() < 0.05,
+                              hi_open=r.random() < 0.05))
+            lo = max(lo, hi) + r.choice([1, 1, 1, 2, 0])
+        dflt = dict(name="dflt", s=content()) if r.random() < 0.5 else None
+        return dict(k="mux", bp=bp, kb=kb, kbit=kbit, key=key, cases=cases, dflt=dflt)
 
     def static_size(self, d):
         """byte size of a dop if static, else None (python mirror, only used to pick plausible sizes)"""
